@@ -36,6 +36,8 @@ pub enum Want {
 	Result(Value),
 	/// any result (e.g. a subscription id)
 	AnyResult,
+	/// any result, or an error with one of these codes
+	AnyResultOrErr(Vec<i64>),
 	/// an error with one of these codes
 	Err(Vec<i64>),
 }
@@ -216,6 +218,8 @@ pub fn satisfies(exp: &Expect, id: &Value, outcome: &Result<Value, i64>) -> bool
 				&& match (want, outcome) {
 					(Want::Result(w), Ok(v)) => w == v,
 					(Want::AnyResult, Ok(_)) => true,
+					(Want::AnyResultOrErr(_), Ok(_)) => true,
+					(Want::AnyResultOrErr(codes), Err(c)) => codes.contains(c),
 					(Want::Err(codes), Err(c)) => codes.contains(c),
 					_ => false,
 				}
@@ -266,7 +270,8 @@ pub fn classify_entry(text: &str, http: bool) -> Classified {
 		let method = c.invokes.as_ref().map(|i| i.0.as_str()).unwrap_or("");
 		if method == "sub" || method == "unsub" {
 			if let Expect::Reply { want, .. } = &mut c.expect {
-				*want = if http { Want::Err(vec![-32603]) } else { Want::AnyResult };
+				// (a subscribe call may be refused with -32006 when the connection's subscription cap is exhausted)
+				*want = if http { Want::Err(vec![-32603]) } else if method == "sub" { Want::AnyResultOrErr(vec![-32006]) } else { Want::AnyResult };
 			}
 			if http || method == "unsub" {
 				c.invokes = None;
